@@ -167,6 +167,8 @@ let handle (line : string) : string =
   | ["icc_tags"; d] -> icc_tags (bytes_of_hex d)
   | ["icc_desc"; d] -> icc_desc (bytes_of_hex d)
   | ["quant"; w; bits] -> quant w (int_of_string bits)
+  | ["alpha16"; a] -> string_of_int (int_of_z (alpha16_bits (z_of_int (int_of_string a))))
+  | ["alpha8"; a] -> string_of_int (int_of_z (alpha8_bits (z_of_int (int_of_string a))))
   | ["meta_load"; which; d; sched; eofwd; fa; inf] -> load_inflate_table inf; meta_load which (bytes_of_hex d) sched eofwd fa
   | ["meta_pure"; which; d; inf] -> load_inflate_table inf; meta_pure which (bytes_of_hex d)
   | ["meta_first"; d; inf] -> load_inflate_table inf; meta_first (bytes_of_hex d)
